@@ -14,6 +14,8 @@ pub enum Content {
     Typed { base: usize, kind: String, arg: u64 },
     /// literal bytes
     Hex(Vec<u8>),
+    /// `len` copies of one byte (large junk files without a large scenario text)
+    Fill { len: usize, byte: u8 },
 }
 
 #[derive(Clone, Debug, PartialEq, Eq)]
@@ -477,6 +479,7 @@ impl Scenario {
                 Content::Gen(z) => s.push_str(&format!("content {i} gen {}\n", z.text())),
                 Content::Corpus(p) => s.push_str(&format!("content {i} corpus {}\n", esc(p.as_bytes()))),
                 Content::Typed { base, kind, arg } => s.push_str(&format!("content {i} typed base={base} kind={kind} arg={arg}\n")),
+                Content::Fill { len, byte } => s.push_str(&format!("content {i} fill len={len} byte={byte}\n")),
                 Content::Hex(b) => s.push_str(&format!("content {i} hex {}\n", if b.is_empty() { "-".to_string() } else { b.iter().map(|x| format!("{x:02x}")).collect::<String>() })),
             }
         }
@@ -541,6 +544,19 @@ impl Scenario {
                                 }
                             }
                             Content::Typed { base, kind: k, arg }
+                        }
+                        "fill" => {
+                            let mut len = 0usize;
+                            let mut byte = 0u8;
+                            for t in &tok[3..] {
+                                let (a, b) = t.split_once('=').ok_or_else(|| err("fill token".into()))?;
+                                match a {
+                                    "len" => len = b.parse().map_err(|_| err("fill len".into()))?,
+                                    "byte" => byte = b.parse().map_err(|_| err("fill byte".into()))?,
+                                    _ => return Err(err(format!("fill key {a}"))),
+                                }
+                            }
+                            Content::Fill { len, byte }
                         }
                         "hex" => {
                             let h = tok.get(3).copied().unwrap_or("-");
